@@ -292,41 +292,117 @@ theorem handleOffset_onlyInvalid (cu : Culture) (c : Char) (rest : Text) (st : C
   | some r => exact handleCommon_onlyInvalid c rest st r hc
   | none => dsimp only; handler_cases
 
-theorem handleChar_onlyInvalid (ty : PType) (cu : Culture) (c : Char) (rest : Text) (st : CSt) :
-    OnlyInvalid (handleChar ty cu c rest st) := by
+/-- LocalDateTime table: every character except `l` (embedded patterns, outside the modelled subset) -/
+theorem handleDateTime_onlyInvalid (cu : Culture) (c : Char) (rest : Text) (st : CSt) (hl : c ≠ 'l') :
+    OnlyInvalid (handleDateTime cu c rest st) := by
+  unfold handleDateTime
+  cases hc : handleCommon c rest st with
+  | some r => exact handleCommon_onlyInvalid c rest st r hc
+  | none =>
+    dsimp only
+    by_cases c0 : c = '/'
+    · rw [if_pos c0]; exact onlyInvalid_ok _
+    rw [if_neg c0]
+    by_cases c1 : c = 'T'
+    · rw [if_pos c1]; exact onlyInvalid_ok _
+    rw [if_neg c1]
+    by_cases c2 : c = 'y'
+    · rw [if_pos c2]; exact handleYearOfEra_onlyInvalid _ _ _
+    rw [if_neg c2]
+    by_cases c3 : c = 'u'
+    · rw [if_pos c3]; exact handlePadded_onlyInvalid _ _ _ _ _ _ _ _
+    rw [if_neg c3]
+    by_cases c4 : c = 'M'
+    · rw [if_pos c4]; exact handleMonthOrDay_onlyInvalid _ _ _ _
+    rw [if_neg c4]
+    by_cases c5 : c = 'd'
+    · rw [if_pos c5]; exact handleMonthOrDay_onlyInvalid _ _ _ _
+    rw [if_neg c5]
+    by_cases c6 : c = '.'
+    · rw [if_pos c6]; exact handleDot_onlyInvalid _ _ _
+    rw [if_neg c6]
+    by_cases c7 : c = ';'
+    · rw [if_pos c7]; exact handleDot_onlyInvalid _ _ _
+    rw [if_neg c7]
+    by_cases c8 : c = ':'
+    · rw [if_pos c8]; exact onlyInvalid_ok _
+    rw [if_neg c8]
+    by_cases c9 : c = 'h'
+    · rw [if_pos c9]; exact handlePadded_onlyInvalid _ _ _ _ _ _ _ _
+    rw [if_neg c9]
+    by_cases c10 : c = 'H'
+    · rw [if_pos c10]; exact handlePadded_onlyInvalid _ _ _ _ _ _ _ _
+    rw [if_neg c10]
+    by_cases c11 : c = 'm'
+    · rw [if_pos c11]; exact handlePadded_onlyInvalid _ _ _ _ _ _ _ _
+    rw [if_neg c11]
+    by_cases c12 : c = 's'
+    · rw [if_pos c12]; exact handlePadded_onlyInvalid _ _ _ _ _ _ _ _
+    rw [if_neg c12]
+    by_cases c13 : c = 'f' ∨ c = 'F'
+    · rw [if_pos c13]; exact handleFraction_onlyInvalid _ _ _
+    rw [if_neg c13]
+    by_cases c14 : c = 't'
+    · rw [if_pos c14]; exact handleCounted_onlyInvalid _ _ _ _ _ _
+    rw [if_neg c14]
+    by_cases c15 : c = 'c'
+    · rw [if_pos c15]; exact handleSingle_onlyInvalid _ _ _
+    rw [if_neg c15]
+    by_cases c16 : c = 'g'
+    · rw [if_pos c16]; exact handleCounted_onlyInvalid _ _ _ _ _ _
+    rw [if_neg c16]
+    rw [if_neg hl]
+    exact handleDefault_onlyInvalid _ _
+
+/-- the pattern text stays inside the modelled subset: a LocalDateTime pattern text without the letter `l`
+    (embedded `ld<…>` / `lt<…>` patterns are not modelled; the model answers `!dom` for them) -/
+def NoL (ty : PType) (text : Text) : Prop :=
+  match ty with
+  | .datetime _ => 'l' ∉ text
+  | _ => True
+
+theorem handleChar_onlyInvalid (ty : PType) (cu : Culture) (c : Char) (rest : Text) (st : CSt)
+    (hl : NoL ty (c :: rest)) : OnlyInvalid (handleChar ty cu c rest st) := by
   unfold handleChar
   cases ty
   · exact handleTime_onlyInvalid _ _ _ _
   · exact handleDate_onlyInvalid _ _ _ _
   · exact handleOffset_onlyInvalid _ _ _ _
+  · exact handleDateTime_onlyInvalid _ _ _ _ (by simp only [NoL, List.mem_cons, not_or] at hl; exact fun h => hl.1 h.symm)
+
+theorem noL_drop (ty : PType) (c : Char) (rest : Text) (k : Nat) (h : NoL ty (c :: rest)) : NoL ty (rest.drop k) := by
+  cases ty <;> simp only [NoL] at h ⊢
+  intro hm
+  exact h (List.mem_cons_of_mem _ (List.mem_of_mem_drop hm))
 
 /-! ## the builder loop: the fuel suffices and only `InvalidPatternError` can come out -/
 
 /-- with fuel at least the length of the text, `_parse_custom_pattern` ends in a builder state or in
     `InvalidPatternError` — in particular the out-of-fuel marker `.other` is unreachable -/
 theorem compileLoop_onlyInvalid (ty : PType) (cu : Culture) : ∀ (fuel : Nat) (text : Text) (st : CSt),
-    text.length ≤ fuel → OnlyInvalid (compileLoop ty cu fuel text st) := by
+    text.length ≤ fuel → NoL ty text → OnlyInvalid (compileLoop ty cu fuel text st) := by
   intro fuel
   induction fuel with
   | zero =>
-    intro text st h
+    intro text st h _
     cases text with
     | nil => unfold compileLoop; exact onlyInvalid_ok _
     | cons c r => simp at h
   | succ f ih =>
-    intro text st h
+    intro text st h hl
     cases text with
     | nil => unfold compileLoop; exact onlyInvalid_ok _
     | cons c rest =>
       unfold compileLoop
       cases hh : handleChar ty cu c rest st with
-      | error e => exact err_of _ _ _ (handleChar_onlyInvalid ty cu c rest st) e hh
+      | error e => exact err_of _ _ _ (handleChar_onlyInvalid ty cu c rest st hl) e hh
       | ok p =>
         obtain ⟨st', k⟩ := p
         dsimp only
         apply ih
-        have : (rest.drop k).length ≤ rest.length := by simp
-        simp at h; omega
+        · have : (rest.drop k).length ≤ rest.length := by simp
+          simp at h; omega
+        · exact noL_drop ty c rest k hl
 
 theorem validateUsed_onlyInvalid (used : Nat) : OnlyInvalid (validateUsed used) := by
   unfold validateUsed
@@ -336,10 +412,11 @@ theorem validateUsed_onlyInvalid (used : Nat) : OnlyInvalid (validateUsed used) 
     · exact onlyInvalid_err
     · exact onlyInvalid_ok _
 
-theorem compileCustom_onlyInvalid (ty : PType) (cu : Culture) (text : Text) : OnlyInvalid (compileCustom ty cu text) := by
+theorem compileCustom_onlyInvalid (ty : PType) (cu : Culture) (text : Text) (hl : NoL ty text := by trivial) :
+    OnlyInvalid (compileCustom ty cu text) := by
   unfold compileCustom
   cases h1 : compileLoop ty cu text.length text ⟨0, []⟩ with
-  | error e => exact err_of _ _ _ (compileLoop_onlyInvalid ty cu _ _ _ (Nat.le_refl _)) e h1
+  | error e => exact err_of _ _ _ (compileLoop_onlyInvalid ty cu _ _ _ (Nat.le_refl _) hl) e h1
   | ok st =>
     dsimp only
     split
@@ -376,6 +453,65 @@ theorem compileDate_total (cu : Culture) (text : Text) : OnlyInvalid (compileDat
       | exact onlyInvalid_err
       | split)
   · exact steppedOf_onlyInvalid _ (compileCustom_onlyInvalid _ _ _)
+
+theorem not_mem_of_contains_false (t : Text) (h : (!t.contains 'l') = true) : 'l' ∉ t := by
+  intro hm
+  have : t.contains 'l' = true := List.contains_iff_mem.mpr hm
+  rw [this] at h; cases h
+
+theorem not_mem_append3 (a b : Text) (ha : 'l' ∉ a) (hb : 'l' ∉ b) : 'l' ∉ a ++ [' '] ++ b := by
+  intro h
+  simp only [List.mem_append, List.mem_cons, List.mem_nil_iff, or_false] at h
+  rcases h with (h | h) | h
+  · exact ha h
+  · exact absurd h (by decide)
+  · exact hb h
+
+/-- LocalDateTime patterns (ISO template value): every pattern text without the letter `l`, every culture record
+    whose date/time pattern texts do not use `l` either -/
+theorem compileDateTime_total (tm : Tmpl) (cu : Culture) (hcu : cu.dtTextsNoL = true) (text : Text) (hl : 'l' ∉ text) :
+    OnlyInvalid (compileDateTime tm cu text) := by
+  unfold Culture.dtTextsNoL at hcu
+  simp only [List.all_cons, List.all_nil, Bool.and_true, Bool.and_eq_true] at hcu
+  obtain ⟨h1, h2, h3, h4, h5⟩ := hcu
+  have h1 := not_mem_of_contains_false _ h1
+  have h2 := not_mem_of_contains_false _ h2
+  have h3 := not_mem_of_contains_false _ h3
+  have h4 := not_mem_of_contains_false _ h4
+  have h5 := not_mem_of_contains_false _ h5
+  unfold compileDateTime
+  split
+  · exact onlyInvalid_err
+  · rename_i c
+    by_cases c1 : c = 'o' ∨ c = 'O'
+    · rw [if_pos c1]; exact steppedOf_onlyInvalid _ (compileCustom_onlyInvalid _ _ _ (by simp only [NoL]; decide))
+    rw [if_neg c1]
+    by_cases c2 : c = 'r'
+    · rw [if_pos c2]; exact steppedOf_onlyInvalid _ (compileCustom_onlyInvalid _ _ _ (by simp only [NoL]; decide))
+    rw [if_neg c2]
+    by_cases c3 : c = 'R'
+    · rw [if_pos c3]; exact steppedOf_onlyInvalid _ (compileCustom_onlyInvalid _ _ _ (by simp only [NoL]; decide))
+    rw [if_neg c3]
+    by_cases c4 : c = 's'
+    · rw [if_pos c4]; exact steppedOf_onlyInvalid _ (compileCustom_onlyInvalid _ _ _ (by simp only [NoL]; decide))
+    rw [if_neg c4]
+    by_cases c5 : c = 'S'
+    · rw [if_pos c5]; exact steppedOf_onlyInvalid _ (compileCustom_onlyInvalid _ _ _ (by simp only [NoL]; decide))
+    rw [if_neg c5]
+    by_cases c6 : c = 'f'
+    · rw [if_pos c6]; exact steppedOf_onlyInvalid _ (compileCustom_onlyInvalid _ _ _ (not_mem_append3 _ _ h1 h2))
+    rw [if_neg c6]
+    by_cases c7 : c = 'F'
+    · rw [if_pos c7]; exact steppedOf_onlyInvalid _ (compileCustom_onlyInvalid _ _ _ h3)
+    rw [if_neg c7]
+    by_cases c8 : c = 'g'
+    · rw [if_pos c8]; exact steppedOf_onlyInvalid _ (compileCustom_onlyInvalid _ _ _ (not_mem_append3 _ _ h4 h2))
+    rw [if_neg c8]
+    by_cases c9 : c = 'G'
+    · rw [if_pos c9]; exact steppedOf_onlyInvalid _ (compileCustom_onlyInvalid _ _ _ (not_mem_append3 _ _ h4 h5))
+    rw [if_neg c9]
+    exact onlyInvalid_err
+  · exact steppedOf_onlyInvalid _ (compileCustom_onlyInvalid _ _ _ hl)
 
 theorem compileOffsetText_onlyInvalid (cu : Culture) (text : Text) : OnlyInvalid (compileOffsetText cu text) := by
   unfold compileOffsetText
@@ -483,7 +619,8 @@ theorem compileOffset_total (cu : Culture) (hcu : cu.offsetTextsCustom = true) (
 /-- **create_total** (modelled types): for every pattern text, creating a LocalTime, LocalDate or Offset pattern
     either succeeds or raises `InvalidPatternError` — never any other exception, and the builder loop always
     terminates within its fuel. -/
-theorem compile_total (ty : PType) (cu : Culture) (hcu : cu.offsetTextsCustom = true) (text : Text) :
+theorem compile_total (ty : PType) (cu : Culture) (hcu : cu.offsetTextsCustom = true) (hdt : cu.dtTextsNoL = true)
+    (text : Text) (hl : NoL ty text) :
     (∃ p, compile ty cu text = .ok p) ∨ compile ty cu text = .error .invalidPattern := by
   rw [← onlyInvalid_iff]
   unfold compile
@@ -491,8 +628,10 @@ theorem compile_total (ty : PType) (cu : Culture) (hcu : cu.offsetTextsCustom = 
   · exact compileTime_total cu text
   · exact compileDate_total cu text
   · exact compileOffset_total cu hcu text
+  · exact compileDateTime_total _ cu hdt text hl
 
 theorem invariantCulture_offsetTextsCustom : invariantCulture.offsetTextsCustom = true := by decide
+theorem invariantCulture_dtTextsNoL : invariantCulture.dtTextsNoL = true := by decide
 
 /-- outcome class of a creation: 0 = created, 1 = InvalidPatternError, 2 = anything else -/
 def outcome (r : R Pat) : Nat :=
@@ -511,5 +650,9 @@ example : outcome (compile .time invariantCulture "HH:mm:ss.FFF".toList) = 0 := 
 example : outcome (compile .date invariantCulture "yyyy\"x\"MM".toList) = 0 := by decide +kernel
 example : outcome (compile .offset invariantCulture "+HH Z".toList) = 1 := by decide +kernel
 example : outcome (compile .offset invariantCulture ['G']) = 0 := by decide +kernel
+example : outcome (compile (.datetime Tmpl.default) invariantCulture "uuuu-MM-dd HH:mm".toList) = 0 := by decide +kernel
+example : outcome (compile (.datetime Tmpl.default) invariantCulture ['F']) = 0 := by decide +kernel
+example : outcome (compile (.datetime Tmpl.default) invariantCulture "HH uuuu HH".toList) = 1 := by decide +kernel
+example : outcome (compile (.datetime Tmpl.default) invariantCulture "gg MM".toList) = 1 := by decide +kernel
 
 end Pyoda.C08
